@@ -475,31 +475,38 @@ for _ in range(cycles):          # the handle has already been used (completed a
 res = {}
 if holder == "parent":
     lk.acquire()
-r, w = os.pipe()
+r, w = os.pipe()          # child -> parent: result
+r2, w2 = os.pipe()        # child -> parent: "I hold the lock now"
+r3, w3 = os.pipe()        # parent -> child: "I am done trying, release"
 pid = os.fork()
 if pid == 0:
-    os.close(r)
+    os.close(r); os.close(r2); os.close(w3)
     out = {}
     t0 = time.monotonic()
     try:
         out["acquired"] = bool(lk.acquire())          # the INHERITED lock object
         out["held"] = bool(lk.is_held())
+        os.write(w2, b"1")
         if holder == "child":
-            time.sleep(1.2)                            # hold while the parent tries
+            os.read(r3, 1)                             # hold until the parent has made its attempt
         lk.release()
     except TimeoutError:
         out["acquired"] = False
+        os.write(w2, b"0")
     except Exception as e:
         out["error"] = type(e).__name__
+        os.write(w2, b"0")
     out["waited"] = round(time.monotonic() - t0, 2)
     os.write(w, json.dumps(out).encode()); os._exit(0)
-os.close(w)
+os.close(w); os.close(w2); os.close(r3)
+ready = os.read(r2, 1)                                 # no sleeps: the two processes are synchronised by pipes
 if holder == "child":
-    time.sleep(0.3)                                    # the child holds by now
-    try:
-        res["parent_acquired"] = bool(lk.acquire()); lk.release()
-    except TimeoutError:
-        res["parent_acquired"] = False
+    if ready == b"1":
+        try:
+            res["parent_acquired"] = bool(lk.acquire()); lk.release()
+        except TimeoutError:
+            res["parent_acquired"] = False
+    os.write(w3, b"1")
 data = b""
 while True:
     b = os.read(r, 4096)
